@@ -482,6 +482,24 @@ pub fn replay_case(case: &Value, mat: Mat) -> Option<Value> {
     for (si, op) in ops.iter().enumerate() {
         match op["op"].as_str().unwrap() {
             "pre" => {
+                // archives found at first build: index i holds the old record -(i - base + 1)
+                if let Some(arch) = op.get("arch") {
+                    let present: Vec<(i64, bool)> = if let Some(a) = arch.as_array() {
+                        a.iter().enumerate().map(|(j, v)| (base + j as i64, v.as_bool().unwrap_or(false))).collect()
+                    } else if let Some(o) = arch.as_object() {
+                        o.iter().map(|(k, v)| (k.parse().unwrap(), v.as_bool().unwrap_or(false))).collect()
+                    } else {
+                        vec![]
+                    };
+                    for (i, there) in present {
+                        if there {
+                            let p = world.arch(i);
+                            fs::create_dir_all(p.parent().unwrap()).unwrap();
+                            let bytes = payload(-(i - base + 1), 1, mat.unit).into_bytes();
+                            fs::write(&p, if mat.gz { gzip(&bytes) } else { bytes }).unwrap();
+                        }
+                    }
+                }
                 let sz = op["sz"].as_i64().unwrap();
                 if sz == 0 {
                     fs::write(world.act(), b"").unwrap();
